@@ -11,7 +11,7 @@ For even n in the centred strategy one more order follows from the symmetry of t
 
 Part 2 (size-bounded, exact): for every n <= 4, approx_order <= 6 and strategy the REAL function is run; the Vandermonde system is
 solved independently in exact rational arithmetic; the returned [coefficients; shifts] array must consist of exactly the columns of
-the exact solution except the (coefficient 0, shift 0) column, ordered by |shift|, each coefficient within 1e-9; and the exact
+the exact solution except the (coefficient 0, shift 0) column, ordered by |shift|, each coefficient within 1e-9 * max|c| (normwise error of the float solve); and the exact
 solution satisfies the moment conditions for every k < n + approx_order (exactness on all polynomials of degree < n + approx_order).
 """
 import importlib
@@ -136,10 +136,11 @@ def exact_obligation(n, order, strategy):
         if any(abs(a[1]) > abs(b[1]) for a, b in zip(got, got[1:])):
             problems.append("columns not ordered by |shift|")
         by_shift = {float(s): ci for ci, s in want}
+        scale = max([Fraction(1)] + [abs(ci) for ci in c])
         for cf, sh in got:
             if sh not in by_shift:
                 problems.append(f"unexpected shift {sh}")
-            elif abs(Fraction(cf) - by_shift[sh]) > Fraction(1, 10 ** 9):
+            elif abs(Fraction(cf) - by_shift[sh]) > Fraction(1, 10 ** 9) * scale:      # normwise relative 1e-9 (float linear solve)
                 problems.append(f"coefficient at shift {sh}: {cf} vs exact {by_shift[sh]}")
         if len({sh for _, sh in got}) != len(got):
             problems.append("repeated shift")
@@ -202,8 +203,16 @@ def build(tier, seed):
                               "factorial": lambda it, a, k: FACT(to_int_term(a[0])), "linalg_solve": b_solve})
     w.module_values = {"np.float64": "float64"}
 
-    def ghost(ctx, a):
+    def ghost_for(parity):
+        return lambda ctx, a: ghost(ctx, a, parity)
+
+    def ghost(ctx, a, parity):
         cell["ctx"] = ctx
+        # names for the halves of n and approx_order (a conservative extension: such integers exist for every int): spares the solver
+        # the search for them inside nested floor terms
+        hn, ho = z3.Int(ctx.fresh_name("half_n")), z3.Int(ctx.fresh_name("half_order"))
+        ctx.assume(a.n == 2 * hn + parity)          # the case's precondition fixes the parity of n
+        ctx.assume(z3.Or(a.approx_order == 2 * ho, a.approx_order == 2 * ho + 1))
 
     def bad_args(o, strategy):
         odd = (o.approx_order % 2 != 0) if not isinstance(o.approx_order, z3.ExprRef) else (S.mod(o.approx_order, 2) != 0)
@@ -241,7 +250,7 @@ def build(tier, seed):
         return post
 
     contracts = []
-    for strategy in ("forward", "backward", "center", "middle"):
+    for strategy, parity in [(st_, p_) for st_ in ("forward", "backward", "center", "middle") for p_ in (0, 1)]:
         def native_call(mod, args, strategy=strategy):
             return mod.finite_diff_coeffs(args["n"], args["approx_order"], strategy)
 
@@ -252,13 +261,14 @@ def build(tier, seed):
             want = {float(s) for s in spec_shifts(o.n, o.approx_order, strategy)}
             got = {float(x) for x in r[1]}
             return r.shape[0] == 2 and got <= want and want - got <= {0.0}
-        cs = Case(f"system handed to linalg_solve, strategy={strategy!r}", {"n": Int, "approx_order": Int, "strategy": T("const", strategy)},
-                  ghost=ghost, ensures=native_ok,
+        cs = Case(f"system handed to linalg_solve, strategy={strategy!r}, n {'odd' if parity else 'even'}",
+                  {"n": Int, "approx_order": Int, "strategy": T("const", strategy)},
+                  requires=lambda a, parity=parity: S.mod(a.n, 2) == parity, ghost=ghost_for(parity), ensures=native_ok,
                   raises={"StopAtSolve": lambda o, strategy=strategy: Not(bad_args(o, strategy)),
                           "ValueError": lambda o, strategy=strategy: bad_args(o, strategy)},
                   must_return=lambda o, strategy=strategy: (Not(bad_args(o, strategy)) if not isinstance(o.n, z3.ExprRef) else False),
                   native_call=native_call,
-                  native_gen=lambda rng, m: dict(m, n=(abs(int(m["n"])) % 7 if rng is not None else int(m["n"])),
+                  native_gen=lambda rng, m, parity=parity: dict(m, n=((2 * (abs(int(m["n"])) % 4) + parity) if rng is not None else int(m["n"])),
                                                  approx_order=(abs(int(m["approx_order"])) % 8 if rng is not None else int(m["approx_order"]))))
         cs.exc_ensures = system_ok(strategy)
         contracts.append(FnContract(w, "finite_diff_coeffs", [cs]))
